@@ -122,7 +122,9 @@ theorem cpv_mapConns {s t : St} (f : Conn → Conn) (hf : ∀ c, (f c).id = c.id
   unfold St.enqueue; split <;> rfl
 @[simp] theorem cpv_dropAction (s : St) (t : AType) (o : Id) : cpv (s.dropAction t o) = cpv s := rfl
 @[simp] theorem cpv_removeFromQueue (s : St) (o : Id) : cpv (s.removeFromQueue o) = cpv s := rfl
-@[simp] theorem cpv_addCluster (s : St) (k : Id) : cpv (s.addCluster k) = cpv s := rfl
+@[simp] theorem cpv_addCluster (s : St) (k : Id) (r : List Id) : cpv (s.addCluster k r) = cpv s := rfl
+@[simp] theorem cpv_setClusterRefs (s : St) (k : Id) (r : List Id) : cpv (s.setClusterRefs k r) = cpv s := rfl
+@[simp] theorem cpv_routeClusters (s : St) : cpv s.routeClusters = cpv s := rfl
 @[simp] theorem cpv_freeCluster (s : St) (k : Id) : cpv (s.freeCluster k) = cpv s := rfl
 @[simp] theorem cpv_modify (s : St) (c : Id) (d : Bool) (e : EndSpec) : cpv (s.modify c d e) = cpv s := rfl
 @[simp] theorem cpv_addObst (s : St) (i : Id) (j a : Bool) : cpv (s.addObst i j a) = cpv s := rfl
@@ -354,15 +356,15 @@ theorem cpOk_step {s : St} (hcore : Core [] s) (h : CpOk s) (op : Op) (hl : Lega
     · exact cpOk_congr h (by simp)
   | rNewJunction id pin => exact cpOk_congr h (by simp)
   | rNewConn id => exact cpOk_addConn h id true
-  | newCluster id => exact cpOk_congr h rfl
+  | newCluster id refs => exact cpOk_congr h rfl
   | deleteCluster id =>
     dsimp only; split
     · exact cpOk_congr h rfl
     · exact cpOk_congr h rfl
-  | setClusterPoly id =>
+  | setClusterPoly id refs =>
     dsimp only; split
     · exact cpOk_congr h rfl
-    · exact h
+    · exact cpOk_congr h rfl
   | touchConn c =>
     dsimp only; split
     · exact cpOk_congr h rfl
